@@ -39,11 +39,6 @@ def max (l : List ValCount) : ValCount :=
   | none => ValCount.zero
   | some m => ⟨m, countOf m (live l)⟩
 
-end PV.C17.Spec
-
-namespace PV.C17.Spec
-open PV.C17
-
 /-- Ascending insertion into a duplicate-free ascending list. -/
 def insertAsc (x : Nat) : List Nat → List Nat
   | [] => [x]
@@ -67,16 +62,12 @@ def maxRow (l : List Pair) : Pair :=
   | none => Pair.zero
   | some m => ⟨m, ((live.filter (fun p => p.id = m)).map (·.count)).foldl (· + ·) 0⟩
 
-/-- Lexicographic order on groups of equal length. -/
-def groupLt : List Nat → List Nat → Bool
-  | [], _ => false
-  | _ :: _, [] => false
-  | a :: as, b :: bs => if a < b then true else if a > b then false else groupLt as bs
-
+/-- Insert one group count into a list ascending by group; groups are ordered
+lexicographically by their row ids (core `List.lt` on `List Nat`). -/
 def insertGC (x : GroupCount) : List GroupCount → List GroupCount
   | [] => [x]
   | y :: ys =>
-    if groupLt x.group y.group then x :: y :: ys
+    if x.group < y.group then x :: y :: ys
     else if x.group = y.group then ⟨y.group, y.count + x.count⟩ :: ys
     else y :: insertGC x ys
 
@@ -89,5 +80,26 @@ def groupCounts (limit : Nat) (l : List (List GroupCount)) : List GroupCount :=
 /-- TopN merge: total count per id, ids ascending (order is unspecified in the code). -/
 def pairs (l : List (List Pair)) : List Pair :=
   (l.flatten.foldl (fun m x => mapAdd m x.id x.count) []).map (fun kv => ⟨kv.1, kv.2⟩)
+
+/-- Total count listed for id `k` in a list of pairs. -/
+def pairTotal (k : Nat) (l : List Pair) : Nat := ((l.filter (fun p => p.id = k)).map (·.count)).sum
+
+/-- Ascending duplicate-free insertion of a (shard, column) bit, lexicographic. -/
+def insertBit (p : Nat × Nat) : List (Nat × Nat) → List (Nat × Nat)
+  | [] => [p]
+  | q :: qs =>
+    if p.1 < q.1 ∨ (p.1 = q.1 ∧ p.2 < q.2) then p :: q :: qs
+    else if p = q then q :: qs
+    else q :: insertBit p qs
+
+/-- Bitmap calls: the union of the bits of all per-shard rows. -/
+def rowBits (rows : List (List Seg)) : List (Nat × Nat) :=
+  (rows.flatMap PV.C17.rowBits).foldl (fun acc p => insertBit p acc) []
+
+/-- bool calls: true iff some shard reported true; none without any result. -/
+def boolOr (l : List (Option Bool)) : Option Bool :=
+  match l.filterMap id with
+  | [] => none
+  | bs => some (bs.any id)
 
 end PV.C17.Spec
